@@ -8,7 +8,9 @@ EXTENDS ArraiValue, SequencesExt
 
 CONSTANTS Elems,      \* pool of candidate members (values)
           MaxLit,     \* literals are subsets of Elems with at most MaxLit members
-          Depth       \* derived steps after the two literals; 0 = "all operators on the pair"
+          Depth,      \* derived steps after the literals; 0 = "all operators on the pair"
+          NLits,      \* number of literals a program starts with (2, or 1 for branching histories)
+          Steps       \* which derived step kinds are enabled
 
 VARIABLES prog, env,
           done        \* the finished program has been handed to the replay harness
@@ -43,17 +45,17 @@ PairResults(a, b) ==
 
 Init == prog = <<>> /\ env = <<>> /\ done = FALSE
 
-Lit == /\ Len(prog) < 2
+Lit == /\ Len(prog) < NLits
        /\ \E v \in Lits : /\ prog' = Append(prog, [k |-> "lit"])
                           /\ env'  = Append(env, v)
        /\ UNCHANGED done
 
-AllOps == /\ Depth = 0 /\ Len(prog) = 2
+AllOps == /\ Depth = 0 /\ NLits = 2 /\ Len(prog) = 2
           /\ prog' = Append(prog, [k |-> "allops", i |-> 1, j |-> 2])
           /\ env'  = Append(env, PairResults(env[1], env[2]))
           /\ UNCHANGED done
 
-Full == IF Depth = 0 THEN Len(prog) = 3 ELSE Len(prog) = 2 + Depth
+Full == IF Depth = 0 THEN Len(prog) = 3 ELSE Len(prog) = NLits + Depth
 Ix   == 1..Len(env)
 
 StepBin == \E op \in BinOps, i \in Ix, j \in Ix :
@@ -76,8 +78,13 @@ StepReprint == \E i \in Ix :
               /\ prog' = Append(prog, [k |-> "reprint", i |-> i])
               /\ env'  = Append(env, env[i])
 
-Step == /\ Depth > 0 /\ Len(prog) >= 2 /\ ~Full
-        /\ (StepBin \/ StepWith \/ StepWithout \/ StepWhere \/ StepColl \/ StepReprint)
+Step == /\ Depth > 0 /\ Len(prog) >= NLits /\ ~Full
+        /\ \/ "bin" \in Steps /\ StepBin
+           \/ "with" \in Steps /\ StepWith
+           \/ "without" \in Steps /\ StepWithout
+           \/ "where" \in Steps /\ StepWhere
+           \/ "coll" \in Steps /\ StepColl
+           \/ "reprint" \in Steps /\ StepReprint
         /\ UNCHANGED done
 
 \* Emission happens when a finished program is *expanded*: exactly once per distinct program in
